@@ -14,7 +14,7 @@ import (
 
 // wt protocol (C16, WaitTimeout):
 //
-//	wt <timeoutMs> <signalAtMs|-1> <sig|bcast> <ghosts>
+//	wt <timeoutMs> <signalAtMs|-1|-2> <sig|bcast> <ghosts>      (-2: the signaller already waits for the mutex when the call starts)
 //
 // The caller locks L and calls machine.WaitTimeout(cond, timeoutMs); another goroutine
 // signals/broadcasts at signalAtMs (never, if -1) while holding L, as sync.Cond users do.
@@ -46,6 +46,10 @@ func wtGen(seed uint64, tier string) {
 	proto.Reply("wt 3000 80 bcast 3")
 	proto.Reply("wt 40 -1 sig 2")
 	proto.Reply("wt 3000 80 sig 1")
+	for i := 0; i < 3; i++ {
+		proto.Reply("wt 3000 -2 sig 0")
+		proto.Reply("wt 3000 -2 bcast 0")
+	}
 	for i := 0; i < n; i++ {
 		t := proto.Pick(r, []int{0, 1, 5, 20, 60, 150, 3000})
 		s := -1
@@ -93,6 +97,20 @@ func wtOne(w []string) string {
 			}()
 		}
 		mu.Lock()
+		if sigAt == -2 {
+			// a signaller that is ALREADY contending for the mutex when the wait starts: it gets the lock the moment
+			// the wait releases it and signals at once (the waiter must have been registered by then)
+			go func() {
+				mu.Lock()
+				if w[3] == "bcast" {
+					cond.Broadcast()
+				} else {
+					cond.Signal()
+				}
+				mu.Unlock()
+			}()
+			time.Sleep(30 * time.Millisecond)
+		}
 		t0 := time.Now()
 		machine.WaitTimeout(cond, uint64(timeout))
 		el := time.Since(t0)
@@ -120,6 +138,9 @@ func wtOne(w []string) string {
 		bound := timeout
 		if sigAt >= 0 && sigAt < timeout {
 			bound = sigAt
+		}
+		if sigAt == -2 {
+			bound = 0
 		}
 		p := "prompt"
 		if el > time.Duration(bound+wtSlackMs)*time.Millisecond {
